@@ -499,7 +499,16 @@ pub fn m_common(s: &Scripted, npre: usize, total: usize) -> String {
         .join(",");
     let fin = s.log.fin.as_ref().map(|f| f.show()).unwrap_or_else(|| "none".to_string());
     let upto = s.data.len().min(npre + total);
-    format!("{}|{}|len={}|calls={}|fl={}|dig={:08x}", calls, fin, s.data.len(), s.calls, s.flushes, fnv(&s.data[..upto]))
+    format!(
+        "{}|{}|len={}|calls={}|fl={}|dig={:08x}|unfl={}",
+        calls,
+        fin,
+        s.data.len(),
+        s.calls,
+        s.flushes,
+        fnv(&s.data[..upto]),
+        s.unflushed
+    )
 }
 
 /// the keys an FST built from `kvs` by `kind` must hold
